@@ -66,6 +66,11 @@ Definition vdb_complete (s : fs) (loc : path) (cat pf : str) (items : list item)
 (* (B) on the implementation's recorded views: the view observed after a crash is the view
    observed before the operation or the one observed after its completion *)
 Definition spec_view_ok (old new r : val) : bool := view_eqb r old || view_eqb r new.
+Definition spec_bad (p : probe) (r : val) : bool :=
+  match p with
+  | PView _ _ old new => negb (spec_view_ok old new r)
+  | _ => false
+  end.
 (* the completed vdb package has every key the check reads *)
 Fixpoint no_missing (v : val) : bool :=
   match v with
